@@ -299,6 +299,112 @@ def number_output(chk, prog):
     chk.ob("R7.number_output", "humphrey_json::serialize", "no float->int / float narrowing casts reachable from serialize", casts == 0, "")
 
 
+def unicode_escapes(chk, prog):
+    """R8: the character pushed for a `\\u` escape is char::from_u32(unit) for a single unit, and for a pair either
+    char::decode_utf16([first, second]) or the explicit formula 0x10000 + (first - 0xD800) * 0x400 + (second - 0xDC00) under
+    first in D800..=DBFF and second in DC00..=DFFF; the units are the from_str_radix results in reading order."""
+    fn = "humphrey_json::parser::Parser::<'a>::parse_string"
+    b = prog.bodies.get(fn)
+    chk.floor("parse_string", 1 if b else 0, 1)
+    if not b:
+        return
+    sites = []
+    for blk, t in b.calls_to(r"String::push$"):
+        d = describe(prog, b, t["args"][1])
+        if desc_contains(d, lambda y: y[0] == "call" and y[1].endswith("from_str_radix")):
+            sites.append((blk, d))
+    chk.floor("\\u escape push site", len(sites), 1)
+
+    def units(d):
+        return sorted(set(c[3] for c in core.desc_calls(d) if c[1].endswith("from_str_radix") and len(c) > 3))
+
+    def unit_key(d):
+        us = units(d)
+        return us[0] if len(us) == 1 else None
+
+    def affine(d):
+        d0 = d
+        while isinstance(d0, tuple) and d0 and d0[0] == "field" and isinstance(d0[1], tuple) and d0[1][0] == "bin" and d0[1][1].endswith("WithOverflow") and d0[2] == 0:
+            d0 = ("bin", d0[1][1][:3], d0[1][2], d0[1][3])
+        if isinstance(d0, tuple) and d0[0] == "lit" and isinstance(d0[1], int):
+            return {"": d0[1]}
+        if isinstance(d0, tuple) and d0[0] == "bin" and d0[1] in ("Add", "Sub", "Mul", "Shl"):
+            a, c = affine(d0[2]), affine(d0[3])
+            if a is None or c is None:
+                return None
+            if d0[1] in ("Add", "Sub"):
+                sg = 1 if d0[1] == "Add" else -1
+                out = dict(a)
+                for k, v in c.items():
+                    out[k] = out.get(k, 0) + sg * v
+                return out
+            if d0[1] == "Shl" and set(c) <= {""}:
+                return {k: v << c.get("", 0) for k, v in a.items()}
+            if d0[1] == "Mul" and set(c) <= {""}:
+                return {k: v * c.get("", 0) for k, v in a.items()}
+            if d0[1] == "Mul" and set(a) <= {""}:
+                return {k: v * a.get("", 0) for k, v in c.items()}
+            return None
+        k = unit_key(d0)
+        if k is not None and not [c for c in core.desc_calls(d0) if core.re.search(r"(wrapping_|saturating_|::max$|::min$|rotate_|swap_bytes)", c[1])]:
+            return {k: 1, "": 0}
+        return None
+
+    for blk, d in sites:
+        alts = d[1] if d[0] == "multi" else [d]
+        for alt in alts:
+            us = units(alt)
+            dec = [c for c in core.desc_calls(alt) if c[1].endswith("decode_utf16")]
+            fu = [c for c in core.desc_calls(alt) if c[1].endswith("::from_u32")]
+            if dec:
+                arr = dec[0][2][0] if dec[0][2] else None
+                ok = isinstance(arr, tuple) and arr[0] == "array" and len(arr[1]) == 2 and [unit_key(x) for x in arr[1]] == us and len(us) == 2
+                chk.ob("R8.unicode_escape", fn, "pair: char::decode_utf16([first unit, second unit]), units in reading order", ok,
+                       f"decode_utf16 argument {panics.short_desc(arr) if arr else None}", where=b.where(blk))
+                errs = desc_contains(alt, lambda y: y[0] == "call" and y[1].endswith("::ok_or_else")) and desc_contains(alt, lambda y: y[0] == "call" and y[1].endswith("::map_err"))
+                chk.ob("R8.unicode_escape", fn, "pair: a missing or invalid decode result is an error (never a replacement character)", errs and not desc_contains(alt, lambda y: y[0] == "call" and core.re.search(r"unwrap_or|lossy|REPLACEMENT", y[1]) is not None), "", where=b.where(blk))
+            elif fu and len(us) == 1:
+                arg = fu[0][2][0]
+                a = affine(arg)
+                chk.ob("R8.unicode_escape", fn, "single unit: char::from_u32(unit)", a == {us[0]: 1, "": 0}, f"from_u32({panics.short_desc(arg)})", where=b.where(blk))
+            elif fu and len(us) == 2:
+                arg = fu[0][2][0]
+                a = affine(arg)
+                want = {us[0]: 0x400, us[1]: 1, "": 0x10000 - 0xD800 * 0x400 - 0xDC00}
+                form = a is not None and {k: v for k, v in a.items() if v or k == ""} == want
+                # bounds on the two units at the conversion
+                fb = fu[0][3] if len(fu[0]) > 3 else blk
+                facts = panics.cmp_facts(prog, b, fb)
+                lo = {us[0]: None, us[1]: None}
+                hi = {us[0]: None, us[1]: None}
+                for (x, op, r) in facts:
+                    for (l_, o_, r_) in ((x, op, r), (r, {"<": ">", "<=": ">=", ">": "<", ">=": "<=", "==": "==", "!=": "!="}.get(op, op), x)):
+                        k = unit_key(l_) if isinstance(l_, tuple) else None
+                        if k in lo and isinstance(r_, tuple) and r_[0] == "lit" and isinstance(r_[1], int):
+                            v = r_[1]
+                            if o_ == ">=":
+                                lo[k] = max(lo[k], v) if lo[k] is not None else v
+                            elif o_ == ">":
+                                lo[k] = max(lo[k], v + 1) if lo[k] is not None else v + 1
+                            elif o_ == "<=":
+                                hi[k] = min(hi[k], v) if hi[k] is not None else v
+                            elif o_ == "<":
+                                hi[k] = min(hi[k], v - 1) if hi[k] is not None else v - 1
+                # reaching the pair branch means char::from_u32(first) was None: first is a surrogate code unit
+                gs = core.guards_dominating(prog, b, fb)
+                if any(lab == "None" and desc_contains(dd, lambda y: y[0] == "call" and y[1].endswith("::from_u32")) and unit_key(dd) == us[0] for s_, lab, dd, info in gs):
+                    lo[us[0]] = max(lo[us[0]] or 0, 0xD800)
+                    hi[us[0]] = min(hi[us[0]] if hi[us[0]] is not None else 0xFFFF, 0xDFFF)
+                rng = (lo[us[0]], hi[us[0]], lo[us[1]], hi[us[1]])
+                ok = form and rng[0] is not None and rng[0] >= 0xD800 and rng[1] is not None and rng[1] <= 0xDBFF and rng[2] is not None and rng[2] >= 0xDC00 and rng[3] is not None and rng[3] <= 0xDFFF
+                chk.ob("R8.unicode_escape", fn, "pair (explicit formula): 0x10000 + (first - 0xD800) * 0x400 + (second - 0xDC00) with first in D800..=DBFF and second in DC00..=DFFF", ok,
+                       f"formula {a}; established ranges: first {[hex(x) if x is not None else None for x in rng[:2]]}, second {[hex(x) if x is not None else None for x in rng[2:]]}: "
+                       "outside these ranges a lone or mismatched surrogate escape is folded into an unrelated character instead of being rejected", where=b.where(fb))
+            else:
+                chk.ob("R8.unicode_escape", fn, "the escape's character comes from char::from_u32 / char::decode_utf16 of the parsed code units", False,
+                       f"pushed value {panics.short_desc(alt)}", where=b.where(blk))
+
+
 def run(chk):
     prog = chk.use(core.load("A", fresh=(chk.tier == "thorough")))
     chk.explanation = (
@@ -316,3 +422,4 @@ def run(chk):
     depth_pairing(chk, prog)
     serialiser_structure(chk, prog)
     number_output(chk, prog)
+    unicode_escapes(chk, prog)
